@@ -134,6 +134,10 @@ def _ip_family(host):
         return None
 
 
+class Chunk(bytes):
+    tainted = False
+
+
 class FakeSock:
     def __init__(self, world, family=_socket.AF_INET, type=_socket.SOCK_STREAM, proto=0, fileno=None):
         self.world = world
@@ -168,12 +172,14 @@ class FakeSock:
         self.rec['closed'] = self.closed
 
     # -- plumbing used by peers -----------------------------------------
-    def push(self, item):
-        """Peer makes `item` available to the tool (bytes chunk or EOF/STALL/RESET)."""
+    def push(self, item, tainted=False):
+        """Peer makes `item` available to the tool (bytes chunk or EOF/STALL/RESET).
+        tainted: the bytes are not what the protocol calls for (fault injection); reads of them are logged as such."""
         if isinstance(item, (bytes, bytearray)):
             if len(item) == 0:
                 return
-            item = bytes(item)
+            item = Chunk(item)
+            item.tainted = tainted
         self.inq.append(item)
 
     def _readable(self):
@@ -300,13 +306,16 @@ class FakeSock:
             self.inq.pop(0)
             w.log(ev='read', n=self.n, got='reset')
             raise ConnectionResetError(errno.ECONNRESET, 'Connection reset by peer')
-        chunk = item[:size]
+        chunk = bytes(item[:size])
         rest = item[size:]
+        tainted = getattr(item, 'tainted', False)
         if rest:
+            rest = Chunk(rest)
+            rest.tainted = tainted
             self.inq[0] = rest
         else:
             self.inq.pop(0)
-        w.log(ev='read', n=self.n, got='data', bytes=len(chunk))
+        w.log(ev='read', n=self.n, got='data', bytes=len(chunk), head=chunk[:8].hex(), tainted=tainted)
         return chunk
 
     def shutdown(self, how):
